@@ -1,0 +1,72 @@
+//go:build verif
+
+// Contracts for the deductive verifier in /verif (govc). Comment-only.
+
+package query
+
+//@ # ---- ghost state of the pipeline state machine (C19) ---------------------------------------
+//@ # cbCount: how often the completion callback has been invoked; cbWithErr: it carried an error;
+//@ # failed: some stage has completed with an error.
+//@ ghost field pipelineStateMachine.cbCount int
+//@ ghost field pipelineStateMachine.cbWithErr bool
+//@ ghost field pipelineStateMachine.failed bool
+
+//@ # the completion callback is arbitrary client code: assumed not to re-enter the state machine.
+//@ # Its precondition is the property: if some stage failed, the error it is given is not nil.
+//@ func pipelineStateMachine.completedCallbackFn
+//@   assume
+//@   requires[error_when_some_stage_failed] self.failed ==> arg0 != nil
+//@   modifies self.cbCount, self.cbWithErr
+//@   ensures self.cbCount == old(self.cbCount) + 1 && self.cbWithErr == (arg0 != nil)
+//@ end
+
+//@ # Other threads may run between any two of our steps and change the two atomics: completed
+//@ # only goes false -> true, pending arbitrarily. The ghost callback counter is changed only by
+//@ # the thread that won the compare-and-swap on completed (not re-checked per thread: the
+//@ # invariant cbCount == 1 ==> completed is assumed to be kept by the other threads). The ghost flag failed is
+//@ # NOT treated as shared: that the failures of concurrently completing stages are visible to
+//@ # the thread that brings pending to zero rests on the ordering of the pending counter and is
+//@ # an assumption of the error_when_some_stage_failed obligation.
+//@ shared pipelineStateMachine
+//@   locations completed.val pending.val
+//@   invariant (self.cbCount == 0 || self.cbCount == 1) && (self.cbCount == 1 ==> self.completed.val)
+//@   rely old(self.completed.val) ==> self.completed.val
+//@ end
+
+//@ # Stage implementations are client code; assumed not to touch the state machine
+//@ func github.com/lindb/lindb/query/stage.Stage.Stats
+//@ end
+//@ func github.com/lindb/lindb/query/stage.Stage.IsAsync
+//@ end
+//@ func github.com/lindb/lindb/query/stage.Stage.Complete
+//@ end
+//@ func github.com/lindb/lindb/query/stage.Stage.Identifier
+//@ end
+
+//@ func pipelineStateMachine.complete
+//@   prop C19
+//@   modifies sm.completed.val, sm.cbCount, sm.cbWithErr
+//@   requires sm.failed ==> err != nil
+//@   ensures[signalled_at_most_once] sm.cbCount >= 0 && sm.cbCount <= 1 && sm.completed.val
+//@ end
+//@ func pipelineStateMachine.isCompleted
+//@   prop C19
+//@   ensures result ==> sm.completed.val
+//@ end
+
+//@ func pipelineStateMachine.completeStage
+//@   prop C19
+//@   ghost_entry sm.failed = sm.failed || err != nil
+//@   requires sm.failed == (sm.err != nil)
+//@   requires sm.stages != nil && all(k, "string", has(sm.stages, k) ==> (sm.stages[k] != nil && sm.stages[k].stats != nil && sm.stages[k].stage != nil))
+//@   modifies *
+//@   ensures[signalled_at_most_once] sm.cbCount <= 1
+//@   ensures[failure_recorded] (err != nil ==> sm.failed) && sm.failed == (sm.err != nil)
+//@ end
+//@ func pipelineStateMachine.executeStage
+//@   prop C19
+//@   requires sm.stages != nil && stage != nil && sm.tracker != nil && all(k, "string", has(sm.stages, k) ==> (sm.stages[k] != nil && sm.stages[k].stats != nil && sm.stages[k].stage != nil))
+//@   requires parentStageID == "" || has(sm.stages, parentStageID)
+//@   modifies *
+//@   ensures[signalled_at_most_once] sm.cbCount <= 1
+//@ end
